@@ -150,12 +150,17 @@ def sln_deps(ctx):
         if g.cls is not f.cls:
             continue
         for n in ast.walk(g.node):
+            # self[x] or self._projects[x]
             if isinstance(n, ast.Subscript) and isinstance(
-                    n.ctx, ast.Load) and isinstance(
-                        n.value, ast.Name) and n.value.id == 'self':
+                    n.ctx, ast.Load) and (isinstance(
+                        n.value, ast.Name) and n.value.id == 'self' or
+                    has(F.atoms(n.value, g), 'self', '_projects')):
                 subs.append((n, g))
+
+    def own(r):
+        return param_of(r, 'self') or has(r, 'self', '_projects')
     ok = bool(subs) and all(any(
-        op == 'In' and param_of(r, 'self') and
+        op == 'In' and own(r) and
         direct(l) & direct(F.atoms(n.slice, g))
         for op, l, r in F.guard_compares(n, g)) for n, g in subs)
     raising = False
@@ -164,7 +169,7 @@ def sln_deps(ctx):
             continue
         for n in ast.walk(g.node):
             if isinstance(n, ast.Raise) and any(
-                    op == 'NotIn' and param_of(r, 'self')
+                    op == 'NotIn' and own(r)
                     for op, l, r in F.guard_compares(n, g)):
                 raising = True
     ctx.ob(R, 'Solution.dependencies|unknown-raises-before-append',
@@ -172,7 +177,8 @@ def sln_deps(ctx):
            'a dependency on a project outside the solution can be recorded '
            'or is silently dropped (the project is looked up without the '
            'membership test that raises)')
-    ok = param_of(F.returns(f), 'self')
+    ok = param_of(F.returns(f), 'self') or has(F.returns(f), 'self',
+                                               '_projects')
     ctx.ob(R, 'Solution.dependencies|appends-the-checked-project', ok,
            f.node, 'the recorded dependency is not the solution\'s own '
            'project object')
